@@ -11,14 +11,14 @@ From Cnfgen Require Import Sem Comb Linear IR FamTab.
 Import ListNotations.
 Open Scope Z_scope.
 
-Definition memz (i : Z) (S : list Z) : bool := existsb (Z.eqb i) S.
+Definition block_mem (i : Z) (S : list Z) : bool := existsb (Z.eqb i) S.
 
 Definition count_valid (M p : Z) : bool := (0 <=? M) && (1 <=? p).
 Definition count_blocks (M p : Z) : list (list Z) := combs (upto M) (Z.to_nat p).
 Definition count_tab (M p : Z) : list (list Z * Z) := number 0 (count_blocks M p).
 Definition count_numvar (M p : Z) : Z := len (count_blocks M p).
 Definition count_ir (M p : Z) : list ir :=
-  map (fun i => ILin (ids_where (memz i) (count_tab M p)) CEq 1) (upto M).
+  map (fun i => ILin (ids_where (block_mem i) (count_tab M p)) CEq 1) (upto M).
 
 (* edges of a simple graph: 1 <= u < v <= n, strictly increasing lexicographically *)
 Definition edge_lt (e f : Z * Z) : bool :=
@@ -28,7 +28,7 @@ Fixpoint edges_increasing (l : list (Z * Z)) : bool :=
   | [] => true
   | x :: t => match t with [] => true | y :: _ => edge_lt x y && edges_increasing t end
   end.
-Definition graph_wf (n : Z) (es : list (Z * Z)) : bool :=
+Definition simple_graph_wf (n : Z) (es : list (Z * Z)) : bool :=
   forallb (fun e => (1 <=? fst e) && (fst e <? snd e) && (snd e <=? n)) es && edges_increasing es.
 
 Definition touches (u : Z) (e : Z * Z) : bool := (fst e =? u) || (snd e =? u).
